@@ -60,8 +60,10 @@ class PadStub:
 class UrandomStub:
     """module `os` as seen by encryption.py"""
 
-    def __init__(self):
-        self.calls = []
+    @property
+    def calls(self):
+        # per path: the stub object itself lives as long as the shadows do
+        return Ctx.cur.env.setdefault('urandom_calls', [])
 
     def urandom(self, n):
         ctx = Ctx.cur
